@@ -83,7 +83,7 @@ def graph_canon(adj, ne):
     return tu.span_canon(x, z, np.zeros(n + ne, dtype=int))
 
 
-def check_graph(ctx, res, drv, adj, rep, backend, SC, DC, pending, order=None, light=False):
+def check_graph(ctx, res, drv, adj, rep, backend, SC, DC, pending, order=None, light=False, repeat=None):
     from graphiq.metrics import Infidelity
     from graphiq.solvers.time_reversed_solver import TimeReversedSolver
 
@@ -127,7 +127,7 @@ def check_graph(ctx, res, drv, adj, rep, backend, SC, DC, pending, order=None, l
     want = graph_canon(adj, ne)
     # history: the property holds for EVERY call of solve(); the same solver object is asked again (and a third time after its result
     # was read): it must return, and return the same circuit (a different one is validated on its own)
-    if ne + np_ <= 14 and (n <= 3 or ctx.rng.random() < (0.25 if ctx.quick else 0.5)):
+    if repeat or (repeat is None and ne + np_ <= 14 and (n <= 3 or ctx.rng.random() < (0.25 if ctx.quick else 0.5))):
         res.count("branches", "history:repeated-solve")
         for k in (2, 3):
             try:
@@ -610,7 +610,8 @@ def replay(ctx, data):
     drv = Driver()
     SC, DC = make_compilers()
     pending = []
-    check_graph(ctx, res, drv, adj, inp.get("target_rep", "g"), inp.get("backend", "stab"), SC, DC, pending)
+    order = [int(k) for k in inp["node_order"].split(",")] if inp.get("node_order") else None
+    check_graph(ctx, res, drv, adj, inp.get("target_rep", "g"), inp.get("backend", "stab"), SC, DC, pending, order=order, repeat=True)
     flush(res, drv, pending)
     drv.close()
     for x in res.violations:
